@@ -14,6 +14,7 @@ The table `canon_table.json` is regenerated with `bin/mkcanon` from the referenc
 signature digests and names.
 """
 import ast
+import copy
 import hashlib
 import json
 import os
@@ -212,6 +213,299 @@ def functions(tree):
     yield from visit(tree.body, '')
 
 
+
+
+# --------------------------------------------------------------------------------------------------------------------------
+# second normal form: temporaries and one-expression helpers that the reference tree does not have are inlined
+PURE_METHODS = {'copy', 'astype', 'reshape', 'view', 'unsqueeze', 'squeeze', 'sum', 'all', 'any', 'ge', 'gt', 'le', 'lt', 'nonzero',
+                'flatten', 'tolist', 'item', 'clone', 'detach', 'to', 'format', 'join', 'items', 'keys', 'values', 'dot', 'long', 'float',
+                'repeat', 'repeat_interleave', 'index', 'count', 'get'}
+PURE_FUNCS = {'len', 'int', 'float', 'bool', 'range', 'list', 'tuple', 'str', 'abs', 'min', 'max', 'sum', 'sorted', 'reversed', 'enumerate',
+              'zip', 'isinstance', 'round', 'type',
+              # kernels of the packages that only read their arguments
+              'acq', 'ipow', 'p0', 'ps0', 'acq_mat', 'acq_grid', 'ipow_product', 'front', 'condense', 'mask', 'pauli_is_onsite', 'binary_repr',
+              'pauli', 'paulis', 'Pauli', 'PauliList'}
+LIB_ROOTS = {'numpy', 'np', 'torch', 'math'}
+
+
+def _pure(e):
+    """An expression whose evaluation has no effect and draws no random number (syntactic whitelist)."""
+    for n in ast.walk(e):
+        if isinstance(n, (ast.Constant, ast.Name, ast.Attribute, ast.Subscript, ast.BinOp, ast.UnaryOp, ast.Compare, ast.BoolOp,
+                          ast.Tuple, ast.List, ast.Slice, ast.IfExp, ast.Load, ast.operator, ast.unaryop, ast.cmpop, ast.boolop,
+                          ast.keyword, ast.Starred)):
+            continue
+        if isinstance(n, ast.Call):
+            f = n.func
+            if isinstance(f, ast.Name) and f.id in PURE_FUNCS:
+                continue
+            if isinstance(f, ast.Attribute):
+                root = f
+                while isinstance(root, ast.Attribute):
+                    root = root.value
+                txt = ast.unparse(f)
+                if isinstance(root, ast.Name) and root.id in LIB_ROOTS and 'rand' not in txt and not f.attr.endswith('_'):
+                    continue
+                if f.attr in PURE_METHODS:
+                    continue
+            return False
+        return False
+    return True
+
+
+def _written_names(stmts):
+    """Names that may be (re)bound or mutated by the statements: stores, roots of subscript / attribute stores, augmented
+    targets, loop targets, and every name passed to a call that is not on the pure whitelist (it may be changed in place)."""
+    out = set()
+    for st in stmts:
+        for n in ast.walk(st):
+            if isinstance(n, ast.Name) and isinstance(n.ctx, (ast.Store, ast.Del)):
+                out.add(n.id)
+            elif isinstance(n, (ast.Subscript, ast.Attribute)) and isinstance(n.ctx, (ast.Store, ast.Del)):
+                r = n
+                while isinstance(r, (ast.Subscript, ast.Attribute)):
+                    r = r.value
+                if isinstance(r, ast.Name):
+                    out.add(r.id)
+            elif isinstance(n, ast.Call) and not _pure(n):
+                for a in list(n.args) + [k.value for k in n.keywords]:
+                    for m in ast.walk(a):
+                        if isinstance(m, ast.Name):
+                            out.add(m.id)
+                if isinstance(n.func, ast.Attribute):
+                    r = n.func.value
+                    while isinstance(r, (ast.Subscript, ast.Attribute)):
+                        r = r.value
+                    if isinstance(r, ast.Name):
+                        out.add(r.id)
+    return out
+
+
+def _blocks(fn):
+    """(statement list, enclosing loop nodes) for every block of fn's own scope."""
+    def rec(body, loops):
+        yield body, loops
+        for st in body:
+            if isinstance(st, (ast.FunctionDef, ast.AsyncFunctionDef, ast.ClassDef)):
+                continue
+            inner = loops + (st,) if isinstance(st, (ast.For, ast.While)) else loops
+            for fld in ('body', 'orelse', 'finalbody'):
+                b = getattr(st, fld, None)
+                if isinstance(b, list) and b and isinstance(b[0], ast.stmt):
+                    yield from rec(b, inner if fld == 'body' else loops)
+            for h in getattr(st, 'handlers', []) or []:
+                yield from rec(h.body, loops)
+    yield from rec(fn.body, ())
+
+
+def inline_unknown_temporaries(fn, known_sigs):
+    """Inline every local that (1) has no counterpart in the reference tree (its signature is not among `known_sigs`), (2) is
+    bound exactly once, by `t = E` with E pure, and read exactly once, later, and (3) none of the names E mentions can be written
+    between the definition and the use (for a use inside a loop that does not contain the definition: anywhere in that loop).
+    Returns the names inlined.  The result is equivalent to the source: E is evaluated with the same operand values."""
+    done = []
+    for _ in range(8):
+        sg, _every = signatures(fn)
+        params = _params(fn)
+        stores, loads = {}, {}
+        for n in ast.walk(fn):
+            if isinstance(n, ast.Name):
+                (loads if isinstance(n.ctx, ast.Load) else stores).setdefault(n.id, []).append(n)
+        changed = False
+        for body, loops in _blocks(fn):
+            for i, st in enumerate(body):
+                if not (isinstance(st, ast.Assign) and len(st.targets) == 1 and isinstance(st.targets[0], ast.Name)):
+                    continue
+                t = st.targets[0].id
+                if t in params or t not in sg or sg[t][0] in known_sigs:
+                    continue
+                if len(stores.get(t, [])) != 1 or not loads.get(t) or not _pure(st.value):
+                    continue
+                if len(loads[t]) > 1:
+                    if _inline_multi(fn, body, i, st, t, loads[t]):
+                        body.pop(i)
+                        done.append(t)
+                        changed = True
+                        break
+                    continue
+                use = loads[t][0]
+                if (use.lineno, use.col_offset) <= (st.end_lineno, st.end_col_offset):
+                    continue
+                # the use must be reachable from this block: in a later statement of the same block (possibly nested)
+                holder = None
+                for later in body[i + 1:]:
+                    if any(m is use for m in ast.walk(later)):
+                        holder = later
+                        break
+                if holder is None:
+                    continue
+                between = body[i + 1: body.index(holder)]
+                span = list(between)
+                # statements of `holder` that run before / around the use: if the use sits inside a loop of holder, the whole loop
+                inner_loops = [l for l in ast.walk(holder) if isinstance(l, (ast.For, ast.While)) and any(m is use for m in ast.walk(l))]
+                if inner_loops:
+                    span.append(inner_loops[0])
+                elif isinstance(holder, (ast.If, ast.With, ast.Try)):
+                    span += [x for x in ast.walk(holder) if isinstance(x, ast.stmt) and x is not holder
+                             and (x.lineno, x.col_offset) < (use.lineno, use.col_offset) and not any(m is use for m in ast.walk(x))]
+                mentioned = {m.id for m in ast.walk(st.value) if isinstance(m, ast.Name)}
+                if mentioned & _written_names(span):
+                    continue
+                # a use as the iterable of the loop header or inside a comprehension is fine; replace the node
+                class R(ast.NodeTransformer):
+                    def visit_Name(self, n):
+                        if n is use:
+                            return ast.copy_location(copy.deepcopy(st.value), n)
+                        return n
+                R().visit(holder)
+                body.pop(i)
+                done.append(t)
+                changed = True
+                break
+            if changed:
+                break
+        if not changed:
+            break
+    return done
+
+
+def _inline_multi(fn, body, i, st, t, uses):
+    """Several reads of a pure temporary: inlined when every read is in a read-only position (operand of an operator or
+    comparison, base of an attribute / subscript READ, argument of a call on the pure whitelist, iterable of a loop), all reads
+    come after the definition inside the statements that follow it in the same block, and no name the expression mentions can be
+    written from the definition to the end of that block."""
+    rest = body[i + 1:]
+    inside = set()
+    for later in rest:
+        for m in ast.walk(later):
+            inside.add(id(m))
+    if not all(id(u) in inside for u in uses):
+        return False
+    parent = {}
+    for later in rest:
+        for n in ast.walk(later):
+            for c in ast.iter_child_nodes(n):
+                parent[id(c)] = n
+    for u in uses:
+        par = parent.get(id(u))
+        if isinstance(par, (ast.BinOp, ast.UnaryOp, ast.Compare, ast.BoolOp, ast.IfExp, ast.Tuple, ast.List, ast.Slice, ast.Index if hasattr(ast, 'Index') else ast.Slice)):
+            continue
+        if isinstance(par, ast.Attribute) and isinstance(par.ctx, ast.Load) and par.value is u:
+            gp = parent.get(id(par))
+            if isinstance(gp, ast.Call) and gp.func is par and par.attr not in PURE_METHODS:
+                return False          # a method call on the temporary may change it: its identity matters
+            continue
+        if isinstance(par, ast.Subscript) and isinstance(par.ctx, ast.Load) and par.value is u:
+            continue
+        if isinstance(par, ast.Subscript) and par.slice is u:
+            continue
+        if isinstance(par, ast.Call) and u is not par.func and _pure(ast.Call(func=par.func, args=[], keywords=[])):
+            continue
+        if isinstance(par, (ast.For, ast.comprehension)) and par.iter is u:
+            continue
+        if isinstance(par, ast.keyword):
+            gp = parent.get(id(par))
+            if isinstance(gp, ast.Call) and _pure(ast.Call(func=gp.func, args=[], keywords=[])):
+                continue
+        if isinstance(par, ast.Return):
+            continue
+        return False
+    mentioned = {m.id for m in ast.walk(st.value) if isinstance(m, ast.Name)}
+    if mentioned & _written_names(rest):
+        return False
+    ids = {id(u) for u in uses}
+
+    class R(ast.NodeTransformer):
+        def visit_Name(self, n):
+            if id(n) in ids:
+                return ast.copy_location(copy.deepcopy(st.value), n)
+            return n
+    for later in rest:
+        R().visit(later)
+    return True
+
+
+def desugar_unknown_enumerate(fn, known_sigs):
+    """`for i, x in enumerate(A):` whose element variable x has no counterpart in the reference tree becomes the index loop
+    `for i in range(len(A)):` with every read of x replaced by `A[i]`, provided A is a plain name / attribute chain that the
+    loop body cannot write and x and i are only read in the body.  (Same elements, same order; `len(A)` is the number of items
+    enumerate yields for an array or list.)"""
+    done = []
+    sg, _ = signatures(fn)
+    for lp in [n for n in ast.walk(fn) if isinstance(n, ast.For)]:
+        if not (isinstance(lp.iter, ast.Call) and isinstance(lp.iter.func, ast.Name) and lp.iter.func.id == 'enumerate'
+                and len(lp.iter.args) == 1 and not lp.iter.keywords and isinstance(lp.target, ast.Tuple) and len(lp.target.elts) == 2
+                and all(isinstance(e, ast.Name) for e in lp.target.elts)):
+            continue
+        i, x = lp.target.elts[0].id, lp.target.elts[1].id
+        A = lp.iter.args[0]
+        if not isinstance(A, (ast.Name, ast.Attribute)) or not _pure(A):
+            continue
+        if x not in sg or sg[x][0] in known_sigs:
+            continue
+        root = A
+        while isinstance(root, ast.Attribute):
+            root = root.value
+        written = _written_names(lp.body)
+        if not isinstance(root, ast.Name) or root.id in written or i in written or x in written:
+            continue
+        if sum(1 for n in ast.walk(fn) if isinstance(n, ast.Name) and n.id == x and isinstance(n.ctx, ast.Store)) != 1:
+            continue
+        if any(isinstance(n, ast.Name) and n.id == x for st in ast.walk(fn) if isinstance(st, ast.stmt) and st is not lp
+               for n in ast.walk(st) if not any(n is m for m in ast.walk(lp))):
+            continue        # x is read after the loop
+
+        class R(ast.NodeTransformer):
+            def visit_Name(self, n):
+                if n.id == x and isinstance(n.ctx, ast.Load):
+                    return ast.copy_location(ast.Subscript(value=copy.deepcopy(A), slice=ast.Name(id=i, ctx=ast.Load()), ctx=ast.Load()), n)
+                return n
+        lp.body = [R().visit(b) for b in lp.body]
+        lp.target = ast.copy_location(ast.Name(id=i, ctx=ast.Store()), lp.target)
+        lp.iter = ast.copy_location(ast.Call(func=ast.Name(id='range', ctx=ast.Load()),
+                                             args=[ast.Call(func=ast.Name(id='len', ctx=ast.Load()), args=[copy.deepcopy(A)], keywords=[])],
+                                             keywords=[]), lp.iter)
+        done.append(x)
+    return done
+
+
+def inline_unknown_helpers(tree, rel, tb):
+    """A module-level function that the reference tree does not have and whose body is one `return E` with E pure is inlined at
+    its call sites (arguments that are plain names / constants / attributes, each parameter used at most as often as that is
+    safe): the caller then has the shape it had before the helper was extracted."""
+    helpers = {}
+    for st in tree.body:
+        if isinstance(st, ast.FunctionDef) and '%s::%s' % (rel, st.name) not in tb:
+            body = [b for b in st.body if not (isinstance(b, ast.Expr) and isinstance(b.value, ast.Constant))]
+            a = st.args
+            if len(body) == 1 and isinstance(body[0], ast.Return) and body[0].value is not None and _pure(body[0].value) \
+                    and not a.vararg and not a.kwarg and not a.kwonlyargs and not a.defaults:
+                helpers[st.name] = ([x.arg for x in a.posonlyargs + a.args], body[0].value)
+    if not helpers:
+        return []
+    used = []
+
+    class T(ast.NodeTransformer):
+        def visit_Call(self, n):
+            self.generic_visit(n)
+            if isinstance(n.func, ast.Name) and n.func.id in helpers and not n.keywords and len(n.args) == len(helpers[n.func.id][0]) \
+                    and all(isinstance(a, (ast.Name, ast.Constant, ast.Attribute)) for a in n.args):
+                ps, expr = helpers[n.func.id]
+                m = dict(zip(ps, n.args))
+
+                class S(ast.NodeTransformer):
+                    def visit_Name(self, x):
+                        if x.id in m and isinstance(x.ctx, ast.Load):
+                            return copy.deepcopy(m[x.id])
+                        return x
+                used.append(n.func.id)
+                return ast.copy_location(S().visit(copy.deepcopy(expr)), n)
+            return n
+    T().visit(tree)
+    ast.fix_missing_locations(tree)
+    return used
+
+
 _TABLE = None
 
 
@@ -230,6 +524,10 @@ def normalise(rel, tree, kwnames=frozenset()):
     (qualname, {spelled: reference}) actually applied."""
     applied = []
     tb = table()
+    if tb:
+        hs = inline_unknown_helpers(tree, rel, tb)
+        if hs:
+            applied.append(('<module>', {h: '(inlined helper)' for h in hs}))
     for qual, fn in functions(tree):
         ref = tb.get('%s::%s' % (rel, qual))
         if not ref:
@@ -237,6 +535,15 @@ def normalise(rel, tree, kwnames=frozenset()):
         pm = _rename_params(fn, ref['params'], kwnames)
         if pm:
             applied.append((qual, dict(pm)))
+        known = {d for d, k, x in ref['locals']}
+        en = desugar_unknown_enumerate(fn, known)
+        if en:
+            ast.fix_missing_locations(fn)
+            applied.append((qual, {t: '(enumerate loop read as an index loop)' for t in en}))
+        inl = inline_unknown_temporaries(fn, known)
+        if inl:
+            ast.fix_missing_locations(fn)
+            applied.append((qual, {t: '(inlined temporary)' for t in inl}))
         want = {(d, k): x for d, k, x in ref['locals']}
         sg, every = signatures(fn)
         m = {}
